@@ -31,6 +31,10 @@ pub struct Sc {
     /// hex
     pub entropy: String,
     pub cuts: Cuts,
+    /// planted family only: the configured depth bounds the nesting of every returned value
+    /// (constructor levels, not counting through vectors) by this number
+    #[serde(default)]
+    pub nesting_bound: Option<usize>,
 }
 
 pub fn runs_for(_prop: &str, tier: Tier) -> u64 {
@@ -105,6 +109,24 @@ pub fn generate(_prop: &str, _tier: Tier, seed: u64, run: u64) -> Sc {
     let mut wl = rng.split("workload");
     let mut fl = rng.split("faults");
     let stack_kib = *knobs.pick(&[512usize, 1024, 8192]);
+    if knobs.chance(1, 8) {
+        // planted family with a known depth semantics: T = variant {a : T; b} nests at most depth+1 levels,
+        // L = opt record {head; tail : L} at most depth+2; the depth comes from the global setting or from a
+        // per-path override on the recursive definition itself
+        let mut env = SEnv::new();
+        env.0.insert("T".into(), SType::variant(vec![(SLabel::Named("a".into()), SType::name("T")), (SLabel::Named("b".into()), SType::Prim(Prim::Null))]));
+        env.0.insert("L".into(), SType::opt(SType::record(vec![(SLabel::Named("head".into()), SType::Prim(Prim::Nat8)), (SLabel::Named("tail".into()), SType::name("L"))])));
+        let which = *knobs.pick(&["T", "L"]);
+        let d = knobs.range(0, 12) as usize;
+        let config = if knobs.chance(1, 2) { format!("[random]\ndepth = {d}\n") } else { format!("[random]\ndepth = 40\n[random.{which}]\ndepth = {d}\n") };
+        let n = *fl.pick(&[0usize, 1, 8, 64, 256]);
+        let entropy = match fl.below(4) {
+            0 => vec![0x00; n],
+            1 => vec![0xff; n],
+            _ => fl.bytes(n),
+        };
+        return Sc { stack_kib: 8192, env, tys: vec![SType::name(which)], config, entropy: crate::engines::stream::hex(&entropy), cuts: Cuts::EveryPrefix, nesting_bound: Some(d + 4) };
+    }
     let mut k = TyKnobs::draw(&mut knobs);
     k.defs = knobs.range(0, 5) as usize;
     k.allow_empty = knobs.chance(1, 4);
@@ -136,7 +158,7 @@ pub fn generate(_prop: &str, _tier: Tier, seed: u64, run: u64) -> Sc {
         }
         _ => fl.bytes(n),
     };
-    Sc { stack_kib, env, tys, config, entropy: crate::engines::stream::hex(&entropy), cuts: Cuts::EveryPrefix }
+    Sc { stack_kib, env, tys, config, entropy: crate::engines::stream::hex(&entropy), cuts: Cuts::EveryPrefix, nesting_bound: None }
 }
 
 #[derive(Default)]
@@ -195,6 +217,13 @@ fn run(sc: &Sc, log: bool) -> Local {
                 for (i, (v, t)) in args.args.iter().zip(sc.tys.iter()).enumerate() {
                     let av = from_idl(v);
                     l.states.push(fnv1a(format!("{}|{}", show_type(t), av.nodes()).as_bytes()));
+                    if let Some(b) = sc.nesting_bound {
+                        let n = nesting(&av);
+                        if n > b {
+                            l.v("recursion-within-configured-depth", show_type(t), format!("argument {i}: the generated value nests {n} constructor levels although the configured depth allows at most {b}; entropy prefix {k}/{}; types {tdesc}", entropy.len()));
+                            return l;
+                        }
+                    }
                     if let Err(e) = has_type(&sc.env, &av, t) {
                         l.v("generated-value-inhabits-type", show_type(t), format!("argument {i}: generated value is not of the requested type: {e}; entropy prefix {k}/{}; types {tdesc}", entropy.len()));
                         return l;
@@ -236,6 +265,31 @@ fn run(sc: &Sc, log: bool) -> Local {
     }
     l
 }
+/// constructor nesting of a value, restarting below vectors
+fn nesting(v: &AV) -> usize {
+    fn go(v: &AV, best: &mut usize) -> usize {
+        let d = match v {
+            AV::Opt(Some(x)) => 1 + go(x, best),
+            AV::Variant(_, x) => 1 + go(x, best),
+            AV::Record(fs) => 1 + fs.iter().map(|(_, x)| go(x, best)).max().unwrap_or(0),
+            AV::Vec(xs) => {
+                for x in xs {
+                    go(x, best);
+                }
+                1
+            }
+            _ => 1,
+        };
+        if d > *best {
+            *best = d;
+        }
+        d
+    }
+    let mut best = 0;
+    go(v, &mut best);
+    best
+}
+
 impl Local {
     fn v(&mut self, inv: &str, key: String, detail: String) {
         self.viol.push((inv.to_string(), key, detail));
@@ -326,8 +380,8 @@ pub fn shrink(sc: &Sc) -> Vec<Sc> {
             out.push(s);
         }
     }
-    // no config / fewer config lines
-    if !sc.config.is_empty() {
+    // no config / fewer config lines (the planted family's bound is tied to its configuration)
+    if !sc.config.is_empty() && sc.nesting_bound.is_none() {
         let mut s = sc.clone();
         s.config = String::new();
         out.push(s);
